@@ -94,10 +94,10 @@ func c08CopyAfter(n, L, ops int, array bool, pre int) {
 	_ = sw
 }
 
-func VerifC08Copy2()      { c08Copy(2, 2, 6, false) }
-func VerifC08Copy3()      { c08Copy(3, 2, 5, false) }
-func VerifC08Copy2Long()  { c08Copy(2, 3, 6, false) }
-func VerifC08CopyArray2() { c08Copy(2, 2, 5, true) }
+func VerifC08Copy2()              { c08Copy(2, 2, 6, false) }
+func VerifC08Copy3()              { c08Copy(3, 2, 5, false) }
+func VerifC08Copy2Long()          { c08Copy(2, 3, 6, false) }
+func VerifC08CopyArray2()         { c08Copy(2, 2, 5, true) }
 func VerifC08CopyArrayAfterRead() { c08CopyAfter(2, 3, 4, true, 1+vchoose("pre", 2)) }
 func VerifC08CopyAfterRead()      { c08CopyAfter(2, 3, 4, false, 1+vchoose("pre", 2)) }
 
